@@ -224,8 +224,31 @@ fn more_family<S: Strat + arc_swap::strategy::Strategy<crate::api::V2> + arc_swa
     }
 }
 
+fn adversary_family<S: Strat>(out: &mut Vec<Inst>, fill: bool) {
+    let path = if S::NAME == "nofast" { "nofast" } else if fill { "full" } else { "fast" };
+    let slots = crate::api::SLOTS;
+    let gs: Vec<usize> = if fill { vec![0] } else { vec![0, 1, slots, slots + 1] };
+    for g in gs {
+        for k in 1..=4usize {
+            let mut i = inst(
+                format!("adv{}:{}:g{}", k, path, g),
+                &["C08"],
+                Fresh,
+                2,
+                "W{up to K complete stores placed by the adversary into every gap of the reader's calls} || R{load, load_full} holding g guards",
+                move || h_more::adversary::<S>(k, g, fill),
+            );
+            i.policy = rt::Policy::Adversary { target: 2, writer: 1, k: k as u32 };
+            out.push(i);
+        }
+    }
+}
+
 pub fn all() -> Vec<Inst> {
     let mut v = Vec::new();
+    adversary_family::<DefaultStrategy>(&mut v, false);
+    adversary_family::<DefaultStrategy>(&mut v, true);
+    adversary_family::<NoFast>(&mut v, false);
     rw_family::<DefaultStrategy>(&mut v, false);
     rw_family::<DefaultStrategy>(&mut v, true);
     rw_family::<NoFast>(&mut v, false);
